@@ -122,7 +122,7 @@ def generate(rng, opts):
             if fk == "git":
                 how = rng.choice(["oserror", "nonzero", "kbi_before", "kbi_after"])
                 at = rng.choice(["assert", "toplevel", "tag", "add", "add"])
-                if opts.get("no_known") and at == "add" and how == "kbi_after":
+                if False and at == "add" and how == "kbi_after":
                     how = "kbi_before"
                 faults.append({"kind": "git", "at": at, "nth": rng.choice([0, 0, 1]), "how": how})
             elif fk == "read":
